@@ -42,7 +42,11 @@ SELECTORS = [{"matchLabels": {"zone": "a"}}, {"matchLabels": {"zone": "b"}}, {"m
              {"matchExpressions": [{"key": "zone", "operator": "NotIn", "values": ["a"]}]},
              {"matchExpressions": [{"key": "big", "operator": "DoesNotExist"}]},
              {}, {"matchExpressions": [{"key": "zone", "operator": "In", "values": []}]},
-             {"matchExpressions": [{"key": "zone", "operator": "Weird", "values": ["a"]}]}]
+             {"matchExpressions": [{"key": "zone", "operator": "Weird", "values": ["a"]}]},
+             # not legal label values / keys: the conversion of the selector fails, under matchLabels as under expressions
+             {"matchLabels": {"zone": "us east"}}, {"matchLabels": {"zone": "a", "team": "-x"}}, {"matchLabels": {"bad key": "a"}},
+             {"matchExpressions": [{"key": "zone", "operator": "In", "values": ["a", "b!"]}]},
+             {"matchExpressions": [{"key": "zone/", "operator": "Exists"}]}]
 
 
 def gen_case(rng, tier, stats):
